@@ -21,6 +21,14 @@ VARIANTS = [
     M("clean-handler-narrowed", "jordancurve.JordanCurve.clean", "except ValueError:", "except TypeError:", ["R07.1"]),
     M("eq-data-assert", "jordancurve.JordanCurve.__eq__", "selcopy = self.__copy__().clean()", "selcopy = self.__copy__().clean()\n    assert float(selcopy) == float(other)", ["R07.1"]),
     M("planar-eq-asserts-npts", "curve.PlanarCurve.__eq__", "if self.npts != other.npts:\n        return False", "assert self.npts == other.npts", ["R07.1"]),
+    M("simple-eq-raises-for-other-kinds", "shape.SimpleShape.__eq__", "if not isinstance(other, BaseShape):\n        raise ValueError",
+      "if not isinstance(other, SimpleShape):\n        raise ValueError", ["R07.1"]),
+    M("connected-eq-asserts-own-kind", "shape.ConnectedShape.__eq__", "assert isinstance(other, BaseShape)", "assert isinstance(other, ConnectedShape)", ["R07.1"]),
+    M("simple-eq-raises-for-shapes", "shape.SimpleShape.__eq__", "if not isinstance(other, BaseShape):\n        raise ValueError",
+      "if isinstance(other, DisjointShape):\n        raise ValueError", ["R07.1"]),
+    T("simple-eq-raise-last", "shape.SimpleShape.__eq__",
+      "if not isinstance(other, BaseShape):\n        raise ValueError\n    if not isinstance(other, SimpleShape):\n        return False\n    return self.jordans[0] == other.jordans[0]",
+      "if isinstance(other, SimpleShape):\n        return self.jordans[0] == other.jordans[0]\n    if isinstance(other, BaseShape):\n        return False\n    raise ValueError"),
     M("revert-F5-area-only", "shape.ConnectedShape.__eq__", F5_BODY, "return True", ["R07.2"], "ConnectedShape.__eq__"),
     M("connected-eq-ordered", "shape.ConnectedShape.__eq__", F5_BODY,
       "if len(self.subshapes) != len(other.subshapes):\n        return False\n    for a, b in zip(self.subshapes, other.subshapes):\n        if a != b:\n            return False\n    return True",
